@@ -77,7 +77,9 @@ enum cc_stat cc_deque_new_conf(CC_DequeConf const * const conf, CC_Deque **d)
     if (!deque)
         return CC_ERR_ALLOC;
 
-    if (!(deque->buffer = conf->mem_alloc(conf->capacity * sizeof(void*)))) {
+    size_t capacity = upper_pow_two(conf->capacity);
+
+    if (!(deque->buffer = conf->mem_alloc(capacity * sizeof(void*)))) {
         conf->mem_free(deque);
         return CC_ERR_ALLOC;
     }
@@ -85,7 +87,7 @@ enum cc_stat cc_deque_new_conf(CC_DequeConf const * const conf, CC_Deque **d)
     deque->mem_alloc  = conf->mem_alloc;
     deque->mem_calloc = conf->mem_calloc;
     deque->mem_free   = conf->mem_free;
-    deque->capacity   = upper_pow_two(conf->capacity);
+    deque->capacity   = capacity;
     deque->first      = 0;
 
     deque->size       = 0;
